@@ -11,7 +11,7 @@ use futures_util::stream::BoxStream;
 use futures_util::{FutureExt, Stream, StreamExt};
 use p2panda_core::cbor::{DecodeError, EncodeError, decode_cbor, encode_cbor};
 use p2panda_core::traits::Digest;
-use p2panda_core::{Hash, Topic, VerifyingKey};
+use p2panda_core::{Hash, PruneFlag, Topic, VerifyingKey};
 use p2panda_net::NodeId;
 use p2panda_net::sync::SyncHandle;
 use p2panda_net::utils::ShortFormat;
@@ -342,6 +342,26 @@ where
     let log_id = LogId::from_topic(topic);
 
     let prune_flag = operation.header.extensions.prune_flag();
+
+    // Operations arriving on this topic's stream need to be part of this topic's log. Otherwise a
+    // (valid) operation of another topic could be replayed here, end up in the wrong log and, if
+    // it carries a prune flag, remove the author's entries of _this_ topic.
+    if operation.header.extensions.log_id() != log_id {
+        let event = Event::new(operation, log_id, topic, PruneFlag::default());
+        let error = ProcessorError::LogMismatch;
+
+        warn!(
+            id = %event.hash(),
+            "processing operation failed: {}",
+            error,
+        );
+
+        return Some(StreamEvent::ProcessingFailed {
+            event,
+            error,
+            source,
+        });
+    }
 
     // Send operation to processor task and wait for result. This blocks any parent stream and
     // makes sure that all events are handled in same order.
